@@ -31,7 +31,7 @@
                      for PointwiseNorm, |z| > 0 for ComplexModulus.  (Norm/Dist singularities are covered by
                      [deriv_ok]: the code raises there.) *)
 From Coq Require Import Reals List Bool ZArith.
-From Verif Require Import Base.Num Base.Vec C06.Syntax Gen.UfuncDeriv C06.Model C06.Calc C06.Lin C06.LinMap C06.Leaves C06.Proofs.
+From Verif Require Import Base.Num Base.Vec C06.Syntax Gen.UfuncDeriv C06.Model C06.Calc C06.Lin C06.LinMap C06.Leaves C06.Proofs C06.FModel C06.FProofs.
 Import ListNotations.
 Local Open Scope R_scope.
 
@@ -183,6 +183,34 @@ Theorem ufunc_linear_flag_correct :
   forall f : ufn, ufunc_linear f = true -> exists c : R, forall a : R, usem (PR af ad adm arn rv) f a = c * a.
 Proof. exact ufunc_linear_scale. Qed.
 Print Assumptions ufunc_linear_flag_correct.
+
+(* T1 for functionals (odl/solvers/functional/functional.py, model C06/FModel.v):
+   Functional.derivative(x) = InnerProductOperator(gradient(x)).  For EVERY tree of
+   the functional arithmetic -- L2NormSquared, L2Norm, L1Norm, Constant/Zero,
+   Left/RightScalarMult, Sum, ScalarSum, Translation, QuadraticPerturb, Product,
+   Quotient, RightVectorMult, composition with a matrix operator -- with
+   [fgrad f x] the element the gradient rules compute at x:  d |-> <d, fgrad f x>
+   is the Frechet/Hadamard derivative of f at x, at every regular point
+   (x <> 0 for L2Norm, no zero entry for L1Norm, divisor <> 0), on unweighted rn(n).
+   [sdiff n phi x ell]: along every differentiable curve g through x with
+   velocity d,  t |-> phi (g t)  has derivative  ell d  at 0. *)
+Theorem functional_gradient_is_derivative :
+  forall (f : @fexpr R) (x : list R),
+  fwt f = true -> length x = fdim f -> fregular f x ->
+  sdiff (fdim f) (feval sqrt f) x (fun d => dot d (fgrad sqrt f x)).
+Proof. exact fgrad_sound. Qed.
+Print Assumptions functional_gradient_is_derivative.
+
+Theorem functional_derivative_is_frechet :
+  forall (f : @fexpr R) (x : list R),
+  fwt f = true -> length x = fdim f -> fregular f x ->
+  hdiff (fdim f) 1 (fun y => [feval sqrt f y]) x (fun d => [dot d (fgrad sqrt f x)]).
+Proof. exact functional_derivative_sound. Qed.
+Print Assumptions functional_derivative_is_frechet.
+
+Example functional_premises_hold :
+  fwt ex_f = true /\ length [1; 2] = fdim ex_f /\ fregular ex_f [1; 2].
+Proof. exact ex_f_premises. Qed.
 
 (* ---- the premise on user-defined leaves is satisfiable: the harness's own
    user-defined operator x |-> x^3 - x with derivative d |-> (3x^2 - 1) d ---- *)
